@@ -25,6 +25,19 @@ def norm_stmt(node, limit=140):
     return s[:limit]
 
 
+def site_id(node, limit=90):
+    """Readable + unique id of a call site: leading text and a digest of the
+    full normalised text (line-number independent)."""
+    import hashlib
+    try:
+        full = " ".join(ast.unparse(node).split())
+    except Exception:
+        full = "?"
+    if len(full) <= limit:
+        return full
+    return full[:limit] + "...#" + hashlib.sha1(full.encode()).hexdigest()[:6]
+
+
 class Obligation:
     __slots__ = ("rule", "entity", "construct", "loc", "ok", "detail",
                  "nontrivial", "path")
